@@ -1,6 +1,10 @@
 CHECK = {
     # translator: reflection over the record types of the repository -> schema table for the `decide` theorems
-    "gen": [{"pkg": "extract_c08", "out": "lean/ClusterVerif/Gen/C08.lean"}],
+    "gen": [{"pkg": "extract_c08", "out": "lean/ClusterVerif/Gen/C08.lean"},
+            # field numbers / wire kinds of pb.Pin and pb.PinOptions from the generated api/pb/types.pb.go (go/ast)
+            {"pkg": "extract_c08pb", "out": "lean/ClusterVerif/Gen/C08Pb.lean"},
+            # every construction / mutation site of the wire record types in non-test code (go/ast), fields classified
+            {"pkg": "extract_c08prod", "out": "lean/ClusterVerif/Gen/C08Prod.lean"}],
     "suites": [
         # real encode -> real decode of every record x format, own field-by-field dump on both sides
         suite("roundtrip", "c08", 8000, 150000, stdin=True, args=["-suite", "rt"]),
@@ -8,17 +12,26 @@ CHECK = {
         suite("equals", "c08", 2000, 30000, stdin=True, args=["-suite", "eq"]),
         # String/FromString/JSON forms of TrackerStatus, PinMode, PinType; the parsers on arbitrary words
         suite("strings", "c08", 2000, 20000, stdin=True, args=["-suite", "str"]),
+        # byte level: real ProtoMarshal bytes = the model's bytes exactly; real proto.Unmarshal/ProtoUnmarshal = the model decoder on
+        # permuted / duplicated / unknown-field / mistyped / damaged encodings; url.QueryEscape/QueryUnescape/ParseQuery = the model
+        suite("wire", "c08", 6000, 120000, stdin=True, args=["-suite", "wire"]),
         # SEARCH (not proof): mutated valid encodings and random bytes into every decoder entry point, under recover()
         suite("decoders", "c08", 10000, 250000, stdin=True, args=["-suite", "fuzz"], timeout={"quick": 600, "thorough": 2400}),
     ],
     "lean_sources": ["ClusterVerif/Model/C08.lean", "ClusterVerif/Spec/C08.lean", "ClusterVerif/Lemmas/C08.lean",
-                     "ClusterVerif/Gen/C08.lean"],
+                     "ClusterVerif/Gen/C08.lean", "ClusterVerif/Model/C08Wire.lean", "ClusterVerif/Lemmas/C08Wire.lean",
+                     "ClusterVerif/Lemmas/C08Query.lean", "ClusterVerif/Lemmas/C08Total.lean", "ClusterVerif/Lemmas/C08Eq.lean",
+                     "ClusterVerif/Model/C08Prod.lean", "ClusterVerif/Lemmas/C08Prod.lean", "ClusterVerif/Gen/C08Pb.lean",
+                     "ClusterVerif/Gen/C08Prod.lean"],
     "rule": "roundtrip: a record type (Pin 40%, PinOptions 10%, state dump 4%, the other 20 records uniformly) x one of the formats the system "
             "uses for it x a value drawn by a reflection-based generator with field-aware pools (all pin types, depths -1/0/1/2 and odd ones, "
             "0-4 allocations (elements may be the empty peer ID), references nil / defined / pointing to cid.Undef, cid.Undef in every CID field,  0-3 origins with and without /p2p/, metadata incl. empty key/value, reference/update CIDs of both CID versions, "
             "expiry zero/unix-zero/first-second/past/future/pre-epoch with and without nanoseconds and in three time zones, names needing "
             "escaping, int32/int64/uint64 boundaries, the sharding adder's mode/depth shapes); equals: a pin, a variant (0-3 of 22 edits) and a "
-            "variant of the variant; strings: named statuses, filters, a sweep of 0..8300, modes, types, parser words; decoders: byte/structure "
+            "variant of the variant; wire: pbenc 25% (generated pins incl. invalid UTF-8 in name/metadata and nil origins -> real ProtoMarshal bytes vs the byte-level model, exact), "
+            "pbdec 50% (real bytes with fields shuffled, duplicated, renumbered, retyped, unknown fields of all six wire types incl. nested groups, nested Options/map entries edited, "
+            "and damaged: truncation, lengths past the end, huge lengths, overlong varints, stray groups, reserved wire types, number 0 / >2^29, invalid UTF-8; random bytes -> real "
+            "proto.Unmarshal + ProtoUnmarshal vs the model decoder), qesc 15%, qparse 10%; strings: named statuses, filters, a sweep of 0..8300, modes, types, parser words; decoders: byte/structure "
             "mutations (bit flips, splices, truncation, length blow-ups, msgpack value replacement, JSON value replacement, query parameter "
             "injection, cross-record confusion) of valid encodings with byte-identical seeds, random bytes, empty input. One splitmix64 stream "
             "per case index. non-trivial = the input is well-formed (Spec.wfRt) resp. within the string form's domain; distinct by case line",
@@ -27,14 +40,18 @@ CHECK = {
         "harness/extract_c08 (reflection over the linked repository types; serialEntry read from the source with go/ast) and the hand-written list "
         "wire.Records of records and of the formats each is used in",
         "the decodability/path/omitempty rules of Model/C08 are assumptions about encoding/json and ugorji/go/codec v1.2.6, validated by the roundtrip suite",
-        "wire-level protobuf, msgpack, JSON, URL escaping, integer/time/CID/multiaddress text forms are library behaviour: modelled as identity on opaque "
-        "tokens, validated by the roundtrip suite (the harness goes through proto.Marshal, url.Values.Encode/ParseQuery etc.)",
+        "wire-level msgpack and JSON, integer/time/CID/peer/multiaddress byte and text forms are library behaviour: modelled as identity on opaque "
+        "tokens, validated by the roundtrip suite; the protobuf wire format of pb.Pin/pb.PinOptions and URL query escaping/parsing ARE modelled at the byte "
+        "level (Model/C08Wire) and tied to the real code by suite wire (per-case dictionary token -> bytes, per-leaf oracle of cid.Cast/IDFromBytes/NewMultiaddrBytes)",
+        "harness/extract_c08pb (go/ast over api/pb/types.pb.go) and harness/extract_c08prod (go/ast over all non-test files: syntactic, no type checker; "
+        "allow-lists modeKnownRecursive, referenceKnownDefined, fieldAssignAllowed in Model/C08Prod.lean are read judgements)",
     ],
     "assumptions": [
-        "decoder robustness ('decoding arbitrary bytes never crashes') is SEARCH, claimed partial: a mutation-based byte stream into every decoder entry "
-        "point under recover(); no theorem covers the Go library decoders. A fatal runtime error (stack exhaustion, out of memory) would abort the harness "
+        "decoder robustness ('decoding arbitrary bytes never crashes') of the LIBRARY decoders is SEARCH, claimed partial: a mutation-based byte stream "
+        "(byte-level and structure-derived) into every decoder entry point under recover(); the theorem decode_total_wf covers the Lean model of the protobuf "
+        "decoding of pb.Pin (tied to the real decoder by suite wire), not the Go code. A fatal runtime error (stack exhaustion, out of memory) would abort the harness "
         "and be reported as a broken run, not recovered",
-        "strings are valid UTF-8 (proto3 rejects others at encode time, JSON replaces them); time stamps lie in years 1..9999",
+        "strings are valid UTF-8 in the json/msgpack round trips (JSON replaces others); for protobuf the rejection of invalid UTF-8 at encode and decode time is modelled and tied; time stamps lie in years 1..9999",
         "decoding targets are fresh values (dsstate, gorpc, the REST API and go-libp2p-raft all decode into new values)",
         "an acceptable expire-in without expire-at gives a wall-clock dependent expiry: exercised by the decoder search only (its validation is modelled)",
         "nil and empty slices/maps are one value; a timestamp is its instant (time zone not compared)",
@@ -47,13 +64,17 @@ META = {
             "ProtoUnmarshal(ProtoMarshal(p)) is exactly an explicit lossy projection, and that projection is accepted by the property's comparison "
             "when mode and depth agree (refuted otherwise: finding); same for FromQuery(ToQuery(po)); string forms of every status/mode/type and of "
             "every filter of known statuses (in full, general proof); Pin.Equals/PinOptions.Equals are reflexive, symmetric, "
-            "transitive and never overlook a difference, for distinct pointers (not reflexive for one pointer). (L3) every run drives the real "
+            "transitive and never overlook a difference, for distinct pointers (not reflexive for one pointer). Byte level (round 7): the protobuf wire form of pb.Pin/pb.PinOptions (varint, zigzag, tokens, groups, "
+            "UTF-8, merge semantics) with decode(encode m) = m, independence of field order, unknown-field skipping and a totality theorem (any byte string is rejected or "
+            "decodes to an in-range message), URL query escaping/Encode/ParseQuery/Get for arbitrary bytes, Equals characterised exactly and proved complete, and decide-theorems "
+            "over a regenerated table of every producer site (mode/depth agreement, no Reference to cid.Undef, all shapes recognised). (L3) every run drives the real "
             "encoders and decoders on all 23 record types x formats and compares, field by field with the harness's own dumper, against the model's "
             "prediction and against the property's comparison.",
-    "note": "Decoder robustness is search only (mutated encodings + random bytes under recover). Known findings on the unchanged tree: K01 origins not "
+    "note": "Decoder robustness of the library decoders is search only (mutated encodings + random bytes under recover; per-type distribution in the arm histogram); "
+            "real ProtoMarshal bytes equal the model's bytes exactly and the real protobuf decoder equals the model decoder on structure-aware mutations (suite wire). Known findings on the unchanged tree: K01 origins not "
             "decodable (msgpack, JSON), K13 stored form loses Mode when it disagrees with MaxDepth, "
             "K37/K38 a Reference pointing to cid.Undef is rejected by msgpack and read back as nil by JSON/protobuf, K39 zero-valued records with a required CID cannot be decoded from msgpack, K40 the empty peer ID is written and then rejected in every format, "
             "K16 msgpack nil in an address list decodes to a value that cannot be re-encoded (an error since f2e567e, no panic). "
             "K15 (JSON decoding of an invalid multiaddress panicked) is fixed by f2e567e, K14 (status filters widened by their string form) by d6bd794.",
-    "technique": "Lean 4 decide-theorems over a reflection-generated schema table + theorems over hand models of the converters + differential correspondence + mutation-based decoder search",
+    "technique": "Lean 4 decide-theorems over reflection/ast-generated tables (schema, protobuf field numbers, producer sites) + theorems over hand models of the converters and a byte-level model of the protobuf and query-string wire forms + differential correspondence (byte-exact) + mutation-based decoder search",
 }
